@@ -109,6 +109,11 @@ struct EmitContext {
     /// Unqualified flow/stitch target names mapped to their absolute path
     /// when the name is unique across the story.
     unqualified_flow_targets: BTreeMap<String, String>,
+    /// CONST declarations: the tokens the value of each one is emitted as. Like in
+    /// inklecate, a constant is replaced by its value where the read of a variable is
+    /// generated, so that it is found wherever an expression can stand (also in the
+    /// `{…}` of string literals, choice text and tags, which are only parsed here).
+    consts: BTreeMap<String, Vec<Value>>,
 }
 
 fn register_unqualified_flow_target(
@@ -354,7 +359,7 @@ impl EmitContext {
                 )
             })
             .collect();
-        Self {
+        let mut context = Self {
             global_variables: story.globals().iter().map(|var| var.name.clone()).collect(),
             top_flow_names: story.flows().iter().map(|flow| flow.name.clone()).collect(),
             count_all_visits,
@@ -369,7 +374,21 @@ impl EmitContext {
             qualified_choice_labels,
             function_ref_param_positions,
             unqualified_flow_targets,
-        }
+            consts: BTreeMap::new(),
+        };
+        // The values are emitted while the context knows no constant yet: a constant
+        // named in the value of another one is not replaced in turn, so constants that
+        // name each other cannot loop.
+        context.consts = story
+            .consts
+            .iter()
+            .map(|(name, value)| {
+                let mut tokens = Vec::new();
+                emit_expression_ctx(value, &mut tokens, Some(&context), None);
+                (name.clone(), tokens)
+            })
+            .collect();
+        context
     }
 
     /// Look up a bare item name (e.g. "b") across all lists.
